@@ -41,13 +41,15 @@ func (v Val) One() string {
 }
 
 type Model struct {
-	ctx       *Ctx
-	flatCache map[types.Type][]Comp
-	qual      types.Qualifier
-	defs      map[string]storeDef
-	lazies    map[string]*lazyMerge
-	allocStores map[string]allocStore
-	recording map[string]HeapKey // when non-nil: heap keys read (used to compute the footprint of opaque predicates)
+	ctx           *Ctx
+	flatCache     map[types.Type][]Comp
+	qual          types.Qualifier
+	defs          map[string]storeDef
+	lazies        map[string]*lazyMerge
+	allocStores   map[string]allocStore
+	recording     map[string]HeapKey // when non-nil: heap keys read (used to compute the footprint of opaque predicates)
+	readLog       map[string]bool    // when non-nil: heap keys read while a function body is executed (reads-clause check)
+	readLogPaused int                // > 0 while a contract clause is being evaluated (what clauses read is not what the body reads)
 }
 
 func NewModel(ctx *Ctx) *Model {
@@ -425,6 +427,9 @@ func (m *Model) resolve(t string) string {
 }
 
 func (m *Model) heapGet(s *State, k HeapKey) string {
+	if m.readLog != nil && m.readLogPaused == 0 {
+		m.readLog[k.Key] = true
+	}
 	if m.recording != nil {
 		m.recording[k.Key] = k
 	}
@@ -535,7 +540,9 @@ func distinctRefs(a, b string) bool {
 	if an && bn {
 		return a != b
 	}
-	old := func(x string) bool { return strings.HasPrefix(x, "in.") || strings.HasPrefix(x, "glob$") || strings.HasPrefix(x, "free.") }
+	old := func(x string) bool {
+		return strings.HasPrefix(x, "in.") || strings.HasPrefix(x, "glob$") || strings.HasPrefix(x, "free.")
+	}
 	return an && old(b) || bn && old(a)
 }
 
